@@ -37,7 +37,7 @@ ASSUMPTIONS = [
 ]
 
 SRC_FL = ["list", "ringlist", "seq", "iter", "agen", "aclass", "aplain", "tuple", "tuplesub", "aeager", "aeagerstop", "reiter", "areiter", "aproxy", "agencoro"]
-FN_FL = ["def", "async", "partial", "obj", "objaw", "falsyobj", "eqobj", "unhashobj", "aeqobj", "gencoro", "classaw", "defcoro", "defcoro"]
+FN_FL = ["def", "async", "partial", "obj", "objaw", "falsyobj", "eqobj", "unhashobj", "aeqobj", "gencoro", "classaw", "defcoro", "defcoro", "eagercoro"]
 ASYNC_SRC = {"agen", "aclass", "aplain", "aeager", "aeagerstop", "areiter", "aproxy", "agencoro"}
 ALL = ITER_TOOLS + AGG_TOOLS
 
